@@ -447,8 +447,12 @@ def make_pool(r, flags, size):
     keys = []
     if flags & VNUM:
         base = r.choice([0, 100, (1 << 7) - 20, (1 << 14) - 20, (1 << 21) - 30, 1 << 40, (1 << 63) - 500])
+        # spread profile: numbers 2^31 / 2^32 (and multiples) apart - differences that do not fit an int
+        step = r.choice([1 << 31, 1 << 32, (1 << 32) + 1, 1 << 33, 3 << 31, 1 << 40]) if r.random() < 0.3 else 0
         for _ in range(size):
             n = min((1 << 63) - 1, base + r.randrange(0, size * 2))
+            if step:
+                n = min((1 << 63) - 1, base + r.randrange(0, 4) + step * r.randrange(0, max(2, size // 3)))
             keys.append(venc_key(n) if r.random() < 0.9 or n >= 1 << 31 else struct.pack("<I", n))
     elif flags & REAL:
         for _ in range(size):
